@@ -26,7 +26,7 @@ Theorem C05_open_inputs_exact : forall W fuel root name d id p xin r c,
     /\ sub_at (EObj (vals_of2 dn)) (snd id) = Some (EOpen p inputs)
     /\ sub_at (EObj (vals_of2 dn)) (snd (inputs_id id)) = Some inputs
     /\ memo_get (inputs_id id) (memo s') = Some (Some iv)
-    /\ export big_fuel iv = Some xin
+    /\ export_t iv = Some xin
     /\ alookup p (w_provs W) = Some pv
     /\ contains_unknowns iv = false
     /\ x_has_unknown xin = false
@@ -44,7 +44,7 @@ Theorem C05_run_open_inputs_exact : forall fuel W name d id p xin r c,
     /\ sub_at (EObj (vals_of2 dn)) (snd id) = Some (EOpen p inputs)
     /\ sub_at (EObj (vals_of2 dn)) (snd (inputs_id id)) = Some inputs
     /\ memo_get (inputs_id id) (memo s') = Some (Some iv)
-    /\ export big_fuel iv = Some xin
+    /\ export_t iv = Some xin
     /\ alookup p (w_provs W) = Some pv
     /\ contains_unknowns iv = false
     /\ x_has_unknown xin = false
@@ -65,7 +65,7 @@ Proof. exact eval_expr_memoised. Qed.
 (* ---- (2a) the chain-level gate implies the oracle's value-level validity ---- *)
 Theorem C05_gate_implies_oracle_valid : forall (insch : in_schema) (iv : chain) (xin : xval),
   fst (validate (AccIn insch) iv) = true ->
-  export big_fuel iv = Some xin ->
+  export_t iv = Some xin ->
   x_has_unknown xin = false ->
   C05.x_valid insch xin = true.
 Proof. exact gate_implies_oracle_valid. Qed.
@@ -129,7 +129,7 @@ Example C05x_exact :
   let s' := snd (eval_env C05x_world 40 "" "e" C05x_def st0) in
   In (EvOpen ("e", [IKey "a"]) "p" C05x_xin "e" "e") (log s')
   /\ sub_at (EObj (vals_of2 C05x_def)) [IKey "a"] = Some (EOpen "p" (EObj [("k", ESym [AName "s"])]))
-  /\ option_map (option_map (export big_fuel)) (memo_get ("e", [IKey "a"; IIdx 0]) (memo s')) = Some (Some (Some C05x_xin))
+  /\ option_map (option_map (export_t)) (memo_get ("e", [IKey "a"; IIdx 0]) (memo s')) = Some (Some (Some C05x_xin))
   /\ C05.x_valid (pv_in C05x_prov) C05x_xin = true
   /\ open_provs (rev (log s')) = ["q"; "p"].
 Proof. vm_compute. repeat split; auto. Qed.
